@@ -226,6 +226,10 @@ func fTextTx(d *fDoc, tn string, hk, cmt int, cl bool) {
 		c := ""
 		p.comment = &c
 		p.cws = " "
+	case 5: // a semicolon followed by blanks only
+		c := "   "
+		p.comment = &c
+		p.cws = " "
 	}
 	d.add(p.line())
 	if cl {
@@ -239,7 +243,7 @@ func fGenText(thorough bool) (*fDoc, Options) {
 	d := &fDoc{eol: "\n", finalEOL: true}
 	switch zzverif.Choice("case", 3) {
 	case 0:
-		fTextTx(d, "t0", zzverif.Choice("t0.hk", 4), zzverif.Choice("t0.cmt", 5), zzverif.Choice("t0.cl", 2) == 1)
+		fTextTx(d, "t0", zzverif.Choice("t0.hk", 4), zzverif.Choice("t0.cmt", 6), zzverif.Choice("t0.cl", 2) == 1)
 		if thorough && zzverif.Choice("ntx", 2) == 1 {
 			d.plain("")
 			fTextTx(d, "t1", zzverif.Choice("t1.hk", 4), zzverif.Choice("t1.cmt", 5), false)
